@@ -474,3 +474,309 @@ def campaign_sort_models(ck: Check, n_cases: int) -> None:
 def name_cycle(ms) -> bool:
     g = [node(k, [j for j, (nm2, _) in enumerate(ms) if nm2 in bs and nm2 != nm], ()) for k, (nm, bs) in enumerate(ms)]
     return base_cycle(g)
+
+
+# ---------------------------------------------------------------------------------------------
+# end-to-end oracle: graph -> JSON-Schema definitions -> real generate() -> the emitted module
+E2E_KINDS = ["pydantic_v2.BaseModel", "pydantic.BaseModel", "dataclasses.dataclass"]
+WATCHDOG_S = 6  # one generate() call takes ~20 ms
+
+
+def schema_doc(g, prefix=None) -> dict:
+    """base edge = allOf [$ref, inline object]; member edge = property $ref; `prefix[i]` puts
+    definition i into a module (dotted key) for the modular variant"""
+
+    def key(i):
+        return (prefix[i] + "." if prefix and prefix.get(i) else "") + f"M{i}"
+
+    defs = {}
+    for n in g:
+        props = {f"mark{n['id']}": {"type": "integer"}}
+        for j in n["members"]:
+            props[f"r{j}"] = {"$ref": f"#/definitions/{key(j)}"}
+        body = {"type": "object", "properties": props}
+        if n["bases"]:
+            defs[key(n["id"])] = {"allOf": [{"$ref": f"#/definitions/{key(b)}"} for b in n["bases"]] + [body]}
+        else:
+            defs[key(n["id"])] = body
+    return {"$schema": "http://json-schema.org/draft-07/schema#", "definitions": defs}
+
+
+def class_defs(code: str):
+    tree = ast.parse(code)
+    out = []
+    for st in tree.body:
+        if isinstance(st, ast.ClassDef):
+            bases = []
+            for b in st.bases:
+                if isinstance(b, ast.Name):
+                    bases.append(b.id)
+                elif isinstance(b, ast.Attribute):
+                    bases.append(b.attr)
+            out.append((st.name, bases))
+    return out
+
+
+def e2e_case(ck: Check, camp, g, kind: str, opts: dict) -> None:
+    camp.evaluations += 1
+    cyc = base_cycle(g)
+    selfb = has_self_base(g)
+    camp.hit("kind:" + kind)
+    camp.hit(f"n={len(g)}")
+    camp.hit("inheritance:" + ("self-base" if selfb else "cyclic" if cyc else "acyclic"))
+    if opts.get("keep_model_order"):
+        camp.hit("keep_model_order")
+    inp = {"graph": g, "kind": kind, "opts": opts, "target": "e2e"}
+    cls = {"oracle": "e2e", "kind": kind, "base_cycle": cyc, "self_base": selfb, "keep_model_order": bool(opts.get("keep_model_order"))}
+    res = e2e.run_generate(schema_doc(g), model=kind, opts=opts, timeout=WATCHDOG_S)
+    if res.hang:
+        ck.fail({**cls, "mechanism": "hang"}, inp, f"generate() does not terminate ({WATCHDOG_S} s watchdog)")
+        return
+    if not res.ok:
+        if cyc:
+            camp.hit("reported-error(cyclic inheritance)")
+        else:
+            ck.fail({**cls, "mechanism": "error_on_acyclic"}, inp, f"generate() raised {res.error_type}: {res.error_msg} although inheritance is acyclic")
+        return
+    camp.distinct.add((graph_key(g), kind, json.dumps(opts, sort_keys=True)))
+    err = e2e.parses(res.code)
+    if err:
+        ck.fail({**cls, "mechanism": "unparsable"}, inp, err)
+        return
+    defs = class_defs(res.code)
+    expected = sorted(f"M{n['id']}" for n in g)
+    names = [nm for nm, _ in defs]
+    if "Model" in names:  # the document root (no definition of ours is called Model)
+        names.remove("Model")
+    if sorted(names) != expected:
+        ck.fail({**cls, "mechanism": "lost_or_duplicated"}, inp, f"top-level classes {names} but definitions {expected}")
+        return
+    pos = {nm: k for k, (nm, _) in enumerate(defs)}
+    for nm, bases in defs:
+        for b in bases:
+            if b in pos and b in expected and pos[b] >= pos[nm]:
+                ck.fail({**cls, "mechanism": "base_after_derived"}, inp, f"class {nm}({', '.join(bases)}) is written before its base {b}; order {[d[0] for d in defs]}")
+                return
+    try:
+        mod = e2e.load_module(res.code, kind)
+    except TypeError as ex:
+        msg = " ".join(str(ex).split())
+        if "method resolution order" in msg or "duplicate base class" in msg:
+            camp.hit("python-rejects-base-list(MRO)")  # no order of classes could help: outside C11
+            camp.unmodelled += 1
+            return
+        ck.fail({**cls, "mechanism": "import_error"}, inp, f"import of the emitted module fails: {type(ex).__name__}: {ex}")
+        return
+    except Exception as ex:  # noqa: BLE001
+        ck.fail({**cls, "mechanism": "import_error"}, inp, f"import of the emitted module fails: {type(ex).__name__}: {str(ex)[:200]}")
+        return
+    try:
+        for n in g:
+            c = getattr(mod, f"M{n['id']}")
+            sample = {f"r{j}": {} for j in set(n["members"])}
+            try:
+                # every model must be usable as emitted: members that refer to other models are exercised
+                if kind == "pydantic_v2.BaseModel":
+                    c.model_validate(sample)
+                elif kind == "pydantic.BaseModel":
+                    c.parse_obj(sample)
+                else:
+                    typing.get_type_hints(c)
+            except Exception as ex:  # noqa: BLE001
+                ck.fail({**cls, "mechanism": "unresolved_forward_ref"}, inp, f"M{n['id']} is not usable after import: {type(ex).__name__}: {str(ex)[:200]}")
+                return
+            try:
+                if kind == "pydantic_v2.BaseModel":
+                    c.model_rebuild(force=True)
+                elif kind == "pydantic.BaseModel":
+                    c.update_forward_refs()
+            except Exception as ex:  # noqa: BLE001
+                ck.fail({**cls, "mechanism": "rebuild_fails"}, inp, f"M{n['id']}: {type(ex).__name__}: {str(ex)[:200]}")
+                return
+    finally:
+        e2e.unload(mod)
+    if len(camp.samples) < 2 and len(g) >= 4 and any(n["bases"] for n in g):
+        camp.samples.append({"graph": g, "kind": kind, "opts": opts, "class_order": [d[0] for d in defs]})
+
+
+def campaign_e2e(ck: Check, n_graphs: int) -> None:
+    camp = ck.campaign("e2e: graph -> definitions (allOf/$ref) -> real generate() -> class order, import, forward refs usable")
+    t0 = time.time()
+    rng = ck.rng.fork("e2e")
+    for g in E2E_CORPUS:
+        for kind in E2E_KINDS:
+            e2e_case(ck, camp, g, kind, {})
+    for i in range(n_graphs):
+        g = random_graph(rng, 6)
+        for n in g:  # definitions only: no dangling references
+            n["bases"] = [b for b in n["bases"] if b < EXT]
+            n["members"] = [m for m in n["members"] if m < EXT]
+        opts = {"keep_model_order": True} if rng.chance(1, 4) else {}
+        if opts and has_self_base(g):
+            opts = {}  # known finding C11-selfbase-hang (its witness is re-run separately): every such case costs a watchdog period
+            camp.hit("keep_model_order dropped on self-base graph")
+        for kind in E2E_KINDS if i % 2 == 0 else [rng.choice(E2E_KINDS)]:
+            e2e_case(ck, camp, g, kind, opts)
+    camp.wall_s = time.time() - t0
+
+
+def campaign_e2e_modular(ck: Check, n_graphs: int) -> None:
+    """keep_model_order + modules: the per-module swap loop of __sort_models must terminate"""
+    camp = ck.campaign("e2e modular + keep_model_order: terminates, every definition is one class in its module, bases first inside a module")
+    t0 = time.time()
+    rng = ck.rng.fork("e2e-mod")
+    for _ in range(n_graphs):
+        g = random_graph(rng, 6)
+        for n in g:
+            n["bases"] = [b for b in n["bases"] if b < EXT and b != n["id"]]
+            n["members"] = [m for m in n["members"] if m < EXT]
+        if base_cycle(g):
+            g = [dict(n, bases=[b for b in n["bases"] if b < n["id"]]) for n in g]
+        prefix = {n["id"]: rng.choice(["", "a", "b", "a.c", "pkg.d"]) for n in g}
+        camp.evaluations += 1
+        inp = {"graph": g, "prefix": prefix, "target": "e2e-modular"}
+        cls = {"oracle": "e2e-modular", "base_cycle": False, "self_base": False}
+        res = e2e.run_generate(schema_doc(g, prefix), opts={"keep_model_order": True}, modular=True, timeout=WATCHDOG_S)
+        camp.hit(f"modules={len(set(prefix.values()))}")
+        if res.hang:
+            # where: does it also hang without the alphabetical re-sort?
+            again = e2e.run_generate(schema_doc(g, prefix), opts={}, modular=True, timeout=WATCHDOG_S)
+            where = "keep_model_order" if not again.hang else "generate"
+            ck.fail({**cls, "mechanism": "hang", "where": where}, inp,
+                    f"generate(keep_model_order=True) does not terminate ({WATCHDOG_S} s watchdog); without the option: {'hangs too' if again.hang else 'terminates'}")
+            continue
+        if not res.ok:
+            ck.fail({**cls, "mechanism": "error_on_acyclic"}, inp, f"generate() raised {res.error_type}: {res.error_msg}")
+            continue
+        camp.distinct.add(graph_key(g) + json.dumps(prefix, sort_keys=True))
+        found = []
+        bad = None
+        for fn, code in res.files.items():
+            if e2e.parses(code):
+                bad = f"{fn} does not parse"
+                break
+            defs = class_defs(code)
+            pos = {nm: k for k, (nm, _) in enumerate(defs)}
+            for nm, bases in defs:
+                if nm != "Model":
+                    found.append(nm)
+                for b in bases:
+                    if b in pos and pos[b] >= pos[nm]:
+                        bad = f"{fn}: class {nm} is written before its base {b}"
+        if bad:
+            ck.fail({**cls, "mechanism": "base_after_derived"}, inp, bad)
+        elif sorted(found) != sorted(f"M{n['id']}" for n in g):
+            ck.fail({**cls, "mechanism": "lost_or_duplicated"}, inp, f"classes {sorted(found)} for definitions {sorted(n['id'] for n in g)}")
+    camp.wall_s = time.time() - t0
+
+
+E2E_CORPUS = [
+    [node(0, (1,), (2,)), node(1, (), (2,)), node(2, (), (0, 2))],
+    [node(0, (1,), ()), node(1, (0,), ())],  # D3 (repaired): must be a reported error, not a hang
+    [node(2, (1, 0), ()), node(1, (0,), ()), node(0, (), (2,))],
+    [node(3, (1, 2), ()), node(1, (0,), ()), node(2, (0,), ()), node(0, (), (3,))],  # diamond through a member cycle
+]
+
+
+# ---------------------------------------------------------------------------------------------
+def search_e2e(ck: Check) -> None:
+    """a theorem or the correspondence broke: look for an input on which the property's oracle fails"""
+    camp = ck.campaign("search: disagreeing graphs and all small graphs end-to-end")
+    seen = set()
+    graphs = [d.input["graph"] for d in ck.disagreements if isinstance(d.input, dict) and "graph" in d.input]
+    for g in graphs[:40]:
+        g = [dict(n, bases=[b for b in n["bases"] if b < EXT], members=[m for m in n["members"] if m < EXT]) for n in g]
+        if graph_key(g) in seen or len({n["id"] for n in g}) != len(g):
+            continue
+        seen.add(graph_key(g))
+        for kind in E2E_KINDS:
+            e2e_case(ck, camp, g, kind, {})
+            if ck.failures:
+                return
+    # the real sorter on every graph with <= 3 nodes (function-level oracle), then e2e on those without self loop
+    for n in (2, 3):
+        pairs = [(i, j) for i in range(n) for j in range(n) if i != j]
+        for kinds in itertools.product((0, 1, 2), repeat=len(pairs)):
+            g = [node(i) for i in range(n)]
+            for (i, j), kd in zip(pairs, kinds):
+                if kd:
+                    g[i]["members" if kd == 1 else "bases"].append(j)
+            why = oracle_sort_result(g, run_real_sort(stub_models(g)))
+            if why:
+                ck.fail({"oracle": "sorter_result", "mechanism": mechanism_of(why), "self_base": False, "base_cycle": base_cycle(g)},
+                        {"graph": g, "recursion_count": None, "objects": "stub", "target": "sort_data_models"}, why)
+                return
+            e2e_case(ck, camp, g, "pydantic_v2.BaseModel", {})
+            if ck.failures:
+                return
+
+
+def run_modular_case(ck: Check, camp, g, prefix) -> None:
+    inp = {"graph": g, "prefix": prefix, "target": "e2e-modular"}
+    cls = {"oracle": "e2e-modular", "base_cycle": False, "self_base": False}
+    res = e2e.run_generate(schema_doc(g, prefix), opts={"keep_model_order": True}, modular=True, timeout=WATCHDOG_S)
+    if res.hang:
+        again = e2e.run_generate(schema_doc(g, prefix), opts={}, modular=True, timeout=WATCHDOG_S)
+        ck.fail({**cls, "mechanism": "hang", "where": "keep_model_order" if not again.hang else "generate"}, inp, "generate(keep_model_order=True) does not terminate")
+
+
+def known_findings(ck: Check) -> None:
+    for f in ck.findings:
+        w = f["witness"]
+        probe = Check(ck.prop, ck.tier)
+        probe.findings = []
+        camp = probe.campaign("witness")
+        g = [dict(n) for n in w["graph"]]
+        if "prefix" in w:
+            run_modular_case(probe, camp, g, {int(k): v for k, v in w["prefix"].items()})
+        else:
+            e2e_case(probe, camp, g, w["kind"], w.get("opts", {}))
+        if probe.failures:
+            ck.known(f["id"], f["what"])
+
+
+def run(ck: Check) -> None:
+    quick = ck.tier == "quick"
+    ck.prove()
+    ck.assumptions += [
+        "sort_data_models reads of a model only path, reference_classes and base_classes[i].reference.path (by reading; the stand-in objects of the exhaustive campaigns expose exactly these)",
+        "paths of the models handed to the sorter are pairwise distinct (C06: the resolver keeps one model per path); the overwrite on equal paths is modelled and exhibited (sort_loses_duplicate_path)",
+        "Python's own RecursionError (recursion deeper than the interpreter stack) is not modelled; sort_total covers recursion_count >= number of models",
+        "the end-to-end oracle treats a base list that Python itself rejects (MRO conflict, duplicate base) as outside C11: no order of classes could repair it",
+    ]
+    campaign_sort(ck, 500 if quick else 5000, 3 if quick else 4)
+    campaign_bubble(ck, 4 if quick else 5)
+    campaign_sort_models(ck, 600 if quick else 6000)
+    campaign_e2e(ck, 120 if quick else 1500)
+    campaign_e2e_modular(ck, 40 if quick else 400)
+    ck.search_hooks.append(search_e2e)
+    known_findings(ck)
+
+
+def replay(ck: Check, path: str) -> int:
+    data = json.loads(open(path).read())
+    inp = data.get("input") or {}
+    camp = ck.campaign("replay")
+    ck.findings = []
+    target = inp.get("target")
+    if target == "sort_data_models":
+        g = inp["graph"]
+        ms = real_models(g) if inp.get("objects") == "real" else stub_models(g)
+        res = run_real_sort(ms, inp.get("recursion_count"))
+        why = oracle_sort_result(g, res)
+        print("sort_data_models ->", res)
+        if res == ("err", "circularBases") and not base_cycle(g):
+            why = "acyclic inheritance is reported as circular base classes"
+        if why:
+            ck.fail({"oracle": "sorter_result", "mechanism": mechanism_of(why)}, inp, why)
+    elif target == "e2e":
+        e2e_case(ck, camp, inp["graph"], inp["kind"], inp.get("opts", {}))
+    elif target == "e2e-modular":
+        run_modular_case(ck, camp, inp["graph"], {int(k): v for k, v in inp["prefix"].items()})
+    elif target == "__sort_models":
+        print("replay of __sort_models inputs: run campaign_sort_models with the stored models", inp)
+    for f in ck.failures:
+        print("REPLAY-FAILS:", json.dumps(f.classification), f.observed[:300])
+    if not ck.failures:
+        print("replay: the oracle does not fail on this input")
+    return 1 if ck.failures else 0
